@@ -123,6 +123,6 @@ def replay(ctx, spec, path):
     return 0
 
 from checks import parser  # noqa: E402,F401
-for _m in ('ptr', 'apnum', 'floatdef', 'map', 'ser', 'typed', 'str5', 'lex', 'roundtrip'):
+for _m in ('ptr', 'apnum', 'floatdef', 'map', 'ser', 'typed', 'str5', 'lex', 'roundtrip', 'fv'):
     if os.path.exists(os.path.join(os.path.dirname(__file__), _m + '.py')) and _m in open(os.path.join(engine.VERIF, 'tools', 'checks', 'ENABLED')).read().split():
         __import__('checks.' + _m)
